@@ -46,8 +46,14 @@ def plan(tier, seed, scale=1.0):
     return [{"batch": b, "n": per, "seed": seed, "tier": tier} for b in range(nb)]
 
 
+MALFORMED = []      # descriptions of DOT files without the outer shape of a digraph (drained per program)
+
+
 def read_dot(text):
     """-> nodes {id: {color, port, comments, rows[(line, src, color)]}}, edges [(a, b, port, color)], boxes {id: sub}"""
+    bad = common.dot_malformed(text)
+    if bad:
+        MALFORMED.append(bad)
     nodes = {}
     for m in NODE.finditer(text):
         nid, color, body = m.group(1), m.group(2), m.group(3)
@@ -341,7 +347,11 @@ def run_batch(spec):
         viols, nontrivial = [], []
         signal.alarm(120)
         try:
+            del MALFORMED[:]
             ok = one_program(c["prog"], c["version"], rng, ctr, viols, nontrivial)
+            for bad in MALFORMED[:2]:
+                viols.append(("dot-malformed", "dot", "an exported DOT file is not a well-formed digraph: %s" % bad))
+            ctr["dot_files_shape_checked"] += 1
             if ok:
                 common.release_tealer_caches()
                 out["cases"] += 1
